@@ -168,6 +168,29 @@ def gen_hold_window(rng):
     return {"loops": rng.choice([1, 2]), "res": res, "callers": callers, "ops": ops}
 
 
+def gen_busy(rng):
+    """several threads making many calls at once: the submission queue is shared by all of them"""
+    n = rng.randint(3, 4)
+    res = []
+    callers = []
+    for ci in range(n):
+        ncalls = rng.randint(8, 10)
+        lens = [rng.choice([1, 2, 3]) for _ in range(ncalls)]
+        res.append({"kind": rng.choice(["pipe_r", "sock"]), "pre": sum(lens) + rng.randint(0, 2), "eof": False, "limit_ms": 0})
+        r_in = len(res) - 1
+        res.append({"kind": "pipe_w", "pre": 0, "eof": rng.random() < 0.3, "limit_ms": 0})
+        r_out = len(res) - 1
+        prog = []
+        for ln in lens:
+            if rng.random() < 0.7:
+                prog.append({"op": "read", "r": r_in, "len": ln, "hold": False})
+            else:
+                prog.append({"op": rng.choice(["write", "write", "recv"]), "r": r_out, "len": ln, "hold": False})
+        callers.append({"co": False, "tok": 1000 + ci, "prog": prog})
+    ops = [{"e": "start", "c": ci} for ci in range(n)]
+    return {"loops": 1, "res": res, "callers": callers, "ops": ops}
+
+
 def gen_defect(rng, which):
     lim = 30
     if which == "abort_next":      # timed-out call, then any other call of the same coroutine
@@ -201,6 +224,7 @@ def gen(rng, tier):
     n, nh, nd = {"quick": (40, 5, 2), "thorough": (500, 40, 12), "search": (150, 40, 4)}[tier]
     cases = [gen_normal(rng, big=(tier != "quick" and i % 3 == 0)) for i in range(n)]
     cases += [gen_hold_window(rng) for _ in range(nh)]
+    cases += [gen_busy(rng) for _ in range({"quick": 8, "thorough": 40, "search": 20}[tier])]
     for i in range(nd):
         for w in ("abort_next", "stale_takes", "bad_fd"):
             cases.append(gen_defect(rng, w))
